@@ -16,6 +16,9 @@ CLAIMED = {
  'C11': dict(cat='model_checking', tech='bounded model checking (CBMC/SAT) of the real option tokeniser and ParseOptionString translated from clang IR; the option text is a symbolic byte string',
    text='SkipSpaces/SkipNonSpaces/SkipToEnd, OptionHelper<std::string|int|double>::Parse and BasicSolver::ParseOptionString are executed symbolically on every NUL-terminated string up to the stated length (all byte values). A reference tokeniser in the harness advances in lock step with the calls the real code makes (FindOption name, setter entry point, name=?, flag=value, unknown name); unwinding assertions give termination inside the bound.',
    note='Bounds: kernels <=8 bytes (quick) / 12 (thorough); ParseOptionString <=3 bytes echo off (quick) / 6 bytes with echo (thorough). strtol/strtod are contract stubs (numeric value itself outside); FindOption/Print/ReportError and the virtual option calls are checking stubs, so synonym/wildcard lookup is outside this harness. ParseOptionString counterexamples are replayed on the translated code (its environment is stubbed); kernel counterexamples on the real ASan build.', ref='DESIGN.md 3 C11'),
+ 'C14': dict(cat='model_checking', tech='bounded model checking (CBMC/SAT) of the real SOLReader2 code translated from clang IR; header integers / line bytes / (thorough) the whole file content are symbolic',
+   text='Quick tier: the suffix-header integer parser Lget (all lines <= 12 bytes) and sufheadcheck (all 2^160 header integer tuples) are decided: cursor inside the line, no signed overflow, accepted headers get a scratch buffer that holds name and table, no exception escapes. Thorough tier: gsufread / bsufread / ReadSOLFile over a symbolic file (deterministic stdio model) with a checking handler.',
+   note='Partial: the monolithic gsufread/bsufread/ReadSOLFile functions need > 15 min of symbolic execution even for short files, so they are only in the thorough tier (and may time out there; then they are reported NOT-DECIDED, never as pass). libc strtol/strtod are faithful end-pointer models (value exact for integers <= 15 digits); serror formatting is a stub; allocations <= 4096 bytes.', ref='DESIGN.md 3 C14'),
 }
 NA = {
  'C09': 'whole-process driver behaviour (exit status, stderr, .sol file on disk) over an instantiated backend: no bounded unit states it and neither CBMC nor the IR engines can carry main->BackendApp::Run with filesystem effects; its encodable ingredients are decided under C02, C10, C11, C12',
